@@ -18,6 +18,15 @@ Theorem C02_write_tracked : forall s0 s p q s',
   txid s' = txid s /\ chk s' = chk s /\ ltxdir s' = ltxdir s /\ lockpg s' = lockpg s.
 Proof. exact write_page_unchanged. Qed.
 
+(* ... and so is every page write made inside a rollback-journal transaction while LiteFS tracks the database as WAL:
+   SQLite leaves WAL mode by closing the log and then rewriting page 1 under a rollback journal, with the header on disk
+   still naming WAL (vdbe.c OP_JournalMode); C02_journal_commit_exact then applies to that transaction as to any other *)
+Theorem C02_journalled_write_tracked : forall s0 s p q s',
+  contiguous s p -> Unchanged s0 s -> op_write_page_j s p q = (Done, s') ->
+  Unchanged s0 s' /\ wal_mode s' = wal_mode s /\ dirty s' = insert_sorted p (dirty s) /\
+  txid s' = txid s /\ chk s' = chk s /\ ltxdir s' = ltxdir s /\ lockpg s' = lockpg s.
+Proof. exact write_page_j_unchanged. Qed.
+
 (* finalising a valid journal: exactly one new file, TXID + 1, pre-checksum = previous checksum,
    sorted pages, none beyond the new size or on the lock page, and applying the file to the
    image at the previous position yields exactly the file SQLite now sees *)
@@ -48,3 +57,11 @@ Example C02_nonvacuous :
   let s2 := snd (run_group s1 [OWrite 2 (p 2 99); OWrite 2 (p 2 12); OCommitJournal 3]) in
   (txid s1, txid s2, map (fun f => map fst (l_pages f)) (ltxdir s2)) = (1, 2, [[1;2;3];[2]]) /\ chk s2 = chk s1 /\ dbfile s2 = dbfile s1.
 Proof. vm_compute. repeat split; reflexivity. Qed.
+
+(* ... and leaving WAL mode: a 2-page WAL-mode database; the log is closed; page 1 is rewritten with version 1 under a
+   rollback journal; the file of that transaction holds page 1 and the database is tracked as rollback-journal afterwards *)
+Example C02_leaving_wal_mode :
+  let s1 := snd (run_group (init 2097153) [OWrite 1 (mkPg (fl 11) 2 true); OWrite 2 (mkPg (fl 12) 0 false); OCommitJournal 2]) in
+  let s2 := snd (run_group s1 [OWalTruncate; OWriteJ 1 (mkPg (fl 21) 2 false); OCommitJournal 2]) in
+  (wal_mode s1, wal_mode s2, txid s2, map (fun f => map fst (l_pages f)) (ltxdir s2)) = (true, false, 2, [[1;2];[1]]).
+Proof. vm_compute. reflexivity. Qed.
